@@ -1,6 +1,7 @@
 // rep.hpp - replica loader: dlopen one build of the library+adapter and bind the jv_* ABI.
 #pragma once
 #include <dlfcn.h>
+#include <unistd.h>
 #include <stdlib.h>
 #include <string.h>
 #include <string>
@@ -99,16 +100,18 @@ struct Replicas {
     std::vector<Rep*> all;      // A/bmi2, A2/base, As, B, C (those that loaded)
     std::string dir;
     Rep* by_label(const std::string& l) const { for (auto r : all) if (r->label == l) return r; return nullptr; }
-    bool load(const std::string& dir_, std::string& err, const std::vector<std::string>& which = {"A", "A2", "As", "B", "C"}) {
+    bool load(const std::string& dir_, std::string& err, const std::vector<std::string>& which = {"A", "A2", "As", "B", "C", "G"}) {
         dir = dir_;
         for (auto& n : which) {
             Rep* r = new Rep();
+            if (n == "G" && access((dir + "/libjp_G.so").c_str(), R_OK) != 0) { delete r; continue; }      // the g++ replica exists in the plain flavour only
             if (!r->load(dir, n, err)) { err = n + ": " + err; return false; }
             if (n == "A") { r->want_dispatch = 1; r->label = "A/bmi2-adx"; }
             else if (n == "A2") { r->want_dispatch = 0; r->label = "A/baseline"; }
             else if (n == "As") r->label = "As/static-bmi2";
             else if (n == "B") r->label = "B/portable64";
             else if (n == "C") r->label = "C/portable32";
+            else if (n == "G") { r->label = "G/g++-asm"; r->want_dispatch = 1; }
             r->apply_dispatch();
             all.push_back(r);
         }
